@@ -29,6 +29,11 @@ structure NoClash (nm : Names) (id : Id) (s : State) : Prop where
   code : ∀ j e c, s.a.lookup j = some e → e.code = some c → ¬ Clash id c
   colour : ∀ j e c, s.a.lookup j = some e → e.colour = some c → ¬ Clash id c
   label : ∀ j e l, s.b.lookup j = some e → e.label = some l → ¬ Clash id l
+  /-- the stored form of a typed field (its `FieldType` byte, then the raw bytes) is not the id -/
+  aliasT : ∀ j e a, s.a.lookup j = some e → e.alias = some a → tagged nm.aliasTy a ≠ id
+  codeT : ∀ j e c, s.a.lookup j = some e → e.code = some c → tagged nm.codeTy c ≠ id
+  colourT : ∀ j e c, s.a.lookup j = some e → e.colour = some c → tagged nm.colourTy c ≠ id
+  labelT : ∀ j e l, s.b.lookup j = some e → e.label = some l → tagged nm.labelTy l ≠ id
 
 /-- a byte string that is neither the id nor its typed form -/
 def Safe (id x : Bytes) : Prop := x ≠ id ∧ x ≠ typed id
@@ -38,6 +43,16 @@ theorem safe_of_not_clash {id x : Bytes} (h : ¬ Clash id x) : Safe id x :=
 
 theorem safe_typed {id x : Bytes} (h : ¬ Clash id x) : Safe id (typed x) :=
   ⟨fun e => h (Or.inr (Or.inr e)), fun e => h (Or.inl (by simpa [typed] using e))⟩
+
+/-- the stored form under any type byte: not the id, and its typed form only if the raw bytes are the id -/
+theorem safe_tagged {id x : Bytes} {t : UInt8} (h : ¬ Clash id x) (ht : tagged t x ≠ id) : Safe id (tagged t x) :=
+  ⟨ht, fun e => h (Or.inl (by simp only [tagged, typed, List.cons.injEq] at e; exact e.2))⟩
+
+theorem safe_optFieldT {id : Bytes} {t : UInt8} {o : Option Bytes} (hn : ¬ Clash id nilField)
+    (h : ∀ v, o = some v → ¬ Clash id v) (ht : ∀ v, o = some v → tagged t v ≠ id) : Safe id (optFieldT t o) := by
+  cases o with
+  | none => exact safe_of_not_clash hn
+  | some v => exact safe_tagged (h v rfl) (ht v rfl)
 
 theorem safe_nil {id : Bytes} (h : id ≠ []) : Safe id [] := ⟨fun e => h e.symm, by simp [typed]⟩
 
@@ -216,7 +231,7 @@ theorem no_trace_of_absent {nm : Names} {s : State} {id : Id} (hi : Inv s) (hc :
       ⟨ms, hmo, hl⟩) | ⟨ms, hme, hl⟩) | hl) | hl
     · exact not_mentions_bucket hp
     · exact not_mentions_kv hp sNk (safe_typed (hc.name j e hj))
-    · exact not_mentions_kv hp sAk (safe_optField hc.nil (fun a ha => hc.alias j e a hj ha))
+    · exact not_mentions_kv hp sAk (safe_optFieldT hc.nil (fun a ha => hc.alias j e a hj ha) (fun a ha => hc.aliasT j e a hj ha))
     · exact not_mentions_kv hp sOw (safe_optField hc.nil (refB e.owner (hi.ownerExists j e hj)))
     · exact not_mentions_kv hp sD (safe_optField hc.nil (refB e.dep (hi.depExists j e hj)))
     · exact not_mentions_kv hp sBo (safe_optField hc.nil (refA e.boss (fun hne => hi.boss.boss j e hj hne (by simp))))
@@ -248,7 +263,7 @@ theorem no_trace_of_absent {nm : Names} {s : State} {id : Id} (hi : Inv s) (hc :
         simp only [hcd, List.mem_append, List.mem_cons, List.mem_nil_iff, or_false, mem_optBucket] at hl
         rcases hl with (rfl | rfl) | ⟨ps, hps, hl⟩
         · exact not_mentions_bucket (hp2 _ sE)
-        · exact not_mentions_kv (hp2 _ sE) sC (safe_typed (hc.code j e c hj hcd))
+        · exact not_mentions_kv (hp2 _ sE) sC (safe_tagged (hc.code j e c hj hcd) (hc.codeT j e c hj hcd))
         · refine not_mentions_listBucket hc.ne (hp3 _ _ sE sP) ?_ l hl
           intro g hgm
           obtain ⟨eb, hb⟩ := bOf g (hi.p.fwd_target hps hgm)
@@ -259,7 +274,7 @@ theorem no_trace_of_absent {nm : Names} {s : State} {id : Id} (hi : Inv s) (hc :
         simp only [hcd, List.mem_cons, List.mem_nil_iff, or_false] at hl
         rcases hl with rfl | rfl
         · exact not_mentions_bucket (hp2 _ sE2)
-        · exact not_mentions_kv (hp2 _ sE2) sCo (safe_typed (hc.colour j e c hj hcd))
+        · exact not_mentions_kv (hp2 _ sE2) sCo (safe_tagged (hc.colour j e c hj hcd) (hc.colourT j e c hj hcd))
   · -- a B entity
     have sj : Safe id j := safe_of_not_clash (bId j e hj)
     have hp : ∀ x, x ∈ pathB j → Safe id x := by
@@ -273,7 +288,7 @@ theorem no_trace_of_absent {nm : Names} {s : State} {id : Id} (hi : Inv s) (hc :
     simp only [renderB, List.mem_append, List.mem_cons, List.mem_nil_iff, or_false, mem_optBucket] at hl
     rcases hl with ((((rfl | rfl) | ⟨ms, hm, hl⟩) | ⟨ps, hps, hl⟩) | ⟨c, hrc, hl⟩) | ⟨ts, ht, hl⟩
     · exact not_mentions_bucket hp
-    · exact not_mentions_kv hp sL (safe_optField hc.nil (fun l hl => hc.label j e l hj hl))
+    · exact not_mentions_kv hp sL (safe_optFieldT hc.nil (fun l hl => hc.label j e l hj hl) (fun l hl => hc.labelT j e l hj hl))
     · refine not_mentions_listBucket hc.ne (hp2 _ sM) ?_ l hl
       intro m hmm
       obtain ⟨ea, ha⟩ := aOf m (hi.g.bwd_source hm hmm)
@@ -359,13 +374,13 @@ def noClashCheck (nm : Names) (id : Id) (s : State) : Bool :=
   decide (¬ Clash id []) &&
   s.a.entries.all (fun p =>
     (decide (p.1 = id) || decide (¬ Clash id p.1)) && decide (¬ Clash id p.2.name) &&
-    (match p.2.alias with | some a => decide (¬ Clash id a) | none => true) &&
+    (match p.2.alias with | some a => decide (¬ Clash id a ∧ tagged nm.aliasTy a ≠ id) | none => true) &&
     p.2.roles.all (fun r => decide (¬ Clash id r)) &&
-    (match p.2.code with | some c => decide (¬ Clash id c) | none => true) &&
-    (match p.2.colour with | some c => decide (¬ Clash id c) | none => true)) &&
+    (match p.2.code with | some c => decide (¬ Clash id c ∧ tagged nm.codeTy c ≠ id) | none => true) &&
+    (match p.2.colour with | some c => decide (¬ Clash id c ∧ tagged nm.colourTy c ≠ id) | none => true)) &&
   s.b.entries.all (fun p =>
     (decide (p.1 = id) || decide (¬ Clash id p.1)) &&
-    (match p.2.label with | some l => decide (¬ Clash id l) | none => true))
+    (match p.2.label with | some l => decide (¬ Clash id l ∧ tagged nm.labelTy l ≠ id) | none => true))
 
 theorem counts_no_clash {id : Id} (h : id.length < 5) (n : Nat) : ¬ Clash id (encCount n) := by
   rintro (h1 | h1 | h1)
@@ -377,7 +392,7 @@ theorem noClash_of_check {nm : Names} {id : Id} {s : State} (h : noClashCheck nm
   simp only [noClashCheck, Bool.and_eq_true, decide_eq_true_eq, List.all_eq_true, Bool.or_eq_true, Prod.forall,
     Map.mem_entries_iff] at h
   obtain ⟨⟨⟨⟨⟨⟨h1, h0⟩, h2⟩, h3⟩, h6⟩, h4⟩, h5⟩ := h
-  refine ⟨h1, h2, h3, ?_, ?_, ?_, ?_, ?_, h6, counts_no_clash h0, ?_, ?_, ?_⟩
+  refine ⟨h1, h2, h3, ?_, ?_, ?_, ?_, ?_, h6, counts_no_clash h0, ?_, ?_, ?_, ?_, ?_, ?_, ?_⟩
   · intro j e hj hne
     rcases (h4 j e hj).1.1.1.1.1 with h | h
     · exact absurd h hne
@@ -387,10 +402,14 @@ theorem noClash_of_check {nm : Names} {id : Id} {s : State} (h : noClashCheck nm
     · exact absurd h hne
     · exact h
   · intro j e hj; exact (h4 j e hj).1.1.1.1.2
-  · intro j e a hj ha; have := (h4 j e hj).1.1.1.2; simpa [ha] using this
+  · intro j e a hj ha; have := (h4 j e hj).1.1.1.2; simp only [ha, decide_eq_true_eq] at this; exact this.1
   · intro j e r hj hr; exact (h4 j e hj).1.1.2 r hr
-  · intro j e c hj hc; have := (h4 j e hj).1.2; simpa [hc] using this
-  · intro j e c hj hc; have := (h4 j e hj).2; simpa [hc] using this
-  · intro j e l hj hl; have := (h5 j e hj).2; simpa [hl] using this
+  · intro j e c hj hc; have := (h4 j e hj).1.2; simp only [hc, decide_eq_true_eq] at this; exact this.1
+  · intro j e c hj hc; have := (h4 j e hj).2; simp only [hc, decide_eq_true_eq] at this; exact this.1
+  · intro j e l hj hl; have := (h5 j e hj).2; simp only [hl, decide_eq_true_eq] at this; exact this.1
+  · intro j e a hj ha; have := (h4 j e hj).1.1.1.2; simp only [ha, decide_eq_true_eq] at this; exact this.2
+  · intro j e c hj hc; have := (h4 j e hj).1.2; simp only [hc, decide_eq_true_eq] at this; exact this.2
+  · intro j e c hj hc; have := (h4 j e hj).2; simp only [hc, decide_eq_true_eq] at this; exact this.2
+  · intro j e l hj hl; have := (h5 j e hj).2; simp only [hl, decide_eq_true_eq] at this; exact this.2
 
 end StorageModel.C06
